@@ -64,7 +64,8 @@ def ctype_str(base_type, declarator=None):
             t += '*'
             d = d.base
         elif isinstance(d, Nodes.CArrayDeclaratorNode):
-            t += '[]'
+            dim = getattr(d, 'dimension', None)
+            t += '[%s]' % (dim.value if dim is not None and hasattr(dim, 'value') else '')
             d = d.base
         elif isinstance(d, Nodes.CFuncDeclaratorNode):
             d = d.base
@@ -168,6 +169,9 @@ class Converter:
                 nm, asn = item[1], item[2]
             else:
                 nm, asn = item.name, item.as_name
+            if nm == '*':
+                self.imports.setdefault('*', []).append(n.module_name)
+                continue
             self.imports[asn or nm] = '%s.%s' % (n.module_name, nm)
         return None
 
